@@ -8,6 +8,10 @@ open Proto Rules
 /-- placement function from the regenerated bucket table -/
 def dstOf (t : Nat) : List Nat := ((Gen.dstRows.lookup t).getD none).getD []
 def multiOf (t : Nat) : Bool := Gen.multiMatchTags.contains t
+/-- the property's own multi-match set ("statement-list, case-clause and file-level multi-matches"): the buckets the
+list tags fan out to — independent of the code's `multiMatchTags` table (which `C01.gen_multimatch` pins to it) -/
+def multiSpec (t : Nat) : Bool :=
+  [Gen.tagBlockStmt, Gen.tagCaseClause, Gen.tagCommClause, Gen.tagFile].contains t
 
 def pairOf : SExp → Option (Nat × Nat)
   | .list [a, b] => do pure (← natOfAtom a, ← natOfAtom b)
@@ -48,7 +52,7 @@ def handle : List String → Option String
     pure (showPairs (runOver dstOf multiOf hist cb visits))
   | "rules.spec" :: rest => do
     let (visits, hist, cb) ← parse rest
-    pure (showPairs (specOver dstOf multiOf hist cb visits))
+    pure (showPairs (specOver dstOf multiSpec hist cb visits))
   | "rules.buckets" :: rest => do
     match ← parseSExp (" ".intercalate rest) with
     | .list fs =>
